@@ -14,3 +14,5 @@ import LibfiveTheorems.C03
 #print axioms Libfive.C03.hypHRef_sound
 #print axioms Libfive.C03.dc_quad_boundary
 #print axioms Libfive.C03.quadCycle_flip
+#print axioms Libfive.C03.marching_manifold_per_tet
+#print axioms Libfive.C03.collect_children_once
